@@ -300,6 +300,23 @@ impl Check for C08 {
             }
             return multi(rxs);
         }
+        if d.chance(14) {
+            // regex metacharacters and other ASCII punctuation as top-level literals written in an
+            // escape form (an implementation that re-interprets the decoded character would treat
+            // `\x2E` as a dot, `\x5B` as an opening bracket, ...), alone and inside a bracket
+            let metas: Vec<char> = ".*+?()[]{}|^$\\-/#&~\"' ".chars().collect();
+            let c = *d.pick(&metas);
+            let form = d.pick(&[LitForm::HexFixed, LitForm::HexBrace, LitForm::UShort, LitForm::UBrace, LitForm::ULong]).clone();
+            let mut rxs = vec![Rx::Lit(c, form.clone())];
+            if d.bool() {
+                let c2 = *d.pick(&metas);
+                rxs.push(Rx::Class(Class::Bracket(Bracket {
+                    negated: d.chance(64),
+                    set: ClassSet::Items(vec![ClassItem::Lit(c2, form), ClassItem::Lit('a', LitForm::Verbatim)]),
+                })));
+            }
+            return multi(rxs);
+        }
         if d.chance(8) {
             // a bracket with many items (more than 16 / 64 / 128)
             let n = *d.pick(&[17usize, 33, 64, 65, 100, 129]);
